@@ -3,3 +3,13 @@ export GOFLAGS=-mod=mod
 export GOPROXY=off
 unset GOTOOLCHAIN GOSUMDB 2>/dev/null || true
 export VERIF_ROOT="${VERIF_ROOT:-$(cd "$(dirname "${BASH_SOURCE[0]}")/.." && pwd)}"
+# Build output directory (default build/). VERIF_REPO, if set, makes the build use another checkout of openconfig/gribigo
+# than /repo (bin/seed-run uses a scratch worktree with a deliberately broken tree and its own build directory, so that
+# seeded runs neither touch /repo nor disturb checks that run at the same time). The registered commands never set it.
+export VERIF_BUILD="${VERIF_BUILD:-$VERIF_ROOT/build}"
+if [ -n "$VERIF_REPO" ]; then
+  mkdir -p "$VERIF_BUILD"
+  sed "s#=> /repo\$#=> $VERIF_REPO#" "$VERIF_ROOT/go.mod" > "$VERIF_BUILD/alt.mod"
+  cp "$VERIF_ROOT/go.sum" "$VERIF_BUILD/alt.sum"
+  export GOFLAGS="-mod=mod -modfile=$VERIF_BUILD/alt.mod"
+fi
